@@ -186,6 +186,20 @@ def body_multi(case):
                 labels.add("parent_written_after_child")
         if len(model) >= 2:
             labels.add("several_grids_in_one_file")
+        # a grid read from a FITS / HDF5 file stays what it was when the file is overwritten afterwards (memory-mapped reads)
+        g0, d0, a0 = grids[0]
+        g1, d1, a1 = grids[-1]
+        for fmt, ext in (("fits", "fits"), ("hdf5", "h5")):
+            pth = os.path.join(tmp, "again." + ext)
+            with quiet():
+                with cut(f"write({fmt}) / read / overwrite the same path / look at the first read again"):
+                    g0.write(pth, format=fmt)
+                    first = NssGrid.read(pth, format=fmt)
+                    keep = np.array(first.data, copy=True)
+                    other = NssGrid(np.asarray(d0) * 0 + 7 if d1.shape != d0.shape else (np.asarray(d1) + 1), a0 if d1.shape != d0.shape else a1, list(case["grids"][0]["names"]) if d1.shape != d0.shape else list(case["grids"][-1]["names"]))
+                    other.write(pth, format=fmt, overwrite=True)
+            _same_array(keep, np.asarray(first.data), f"{fmt}: a grid read earlier, after its file was overwritten with another grid")
+        labels.add("read_then_overwrite")
         # a slice written to a file reads back as the slice (both formats)
         g, data, axes = grids[0]
         if data.ndim >= 2 and data.dtype.kind == "f" and all(len(a) >= 2 for a in axes):
@@ -298,6 +312,35 @@ def _row_ref(row, ys, x):
     t = (x - x0) / (x1 - x0)
     y = y0 + t * (y1 - y0)
     return y, y
+
+
+def _long_row_cases(tier):
+    import os
+
+    seed = int(os.environ.get("VERIF_SEED", "1") or "1")
+    # row lengths at the widths of narrow integer index types (2^8, 2^15, 2^16 +- 1) and beyond
+    for m in ([255, 256, 257, 32767, 32769, 65535, 65536, 65537, 70001] if tier == "quick" else [255, 256, 257, 32767, 32768, 32769, 65535, 65536, 65537, 70001, 140003, 2**18 + 1]):
+        yield {"m": m, "n": 7, "seed": seed}
+
+
+def body_long_rows(case):
+    """Rows with more nodes than a narrow index type can count (the shipped tables have 51 / 71; a finer table is a
+    data change, not a code change): the row-wise interpolation agrees with np.interp at queries spread over the
+    whole row, incl. just beyond node 255, 32767 and 65535."""
+    from nuspacesim.utils.interp import vec_1d_interp
+
+    m, n = case["m"], case["n"]
+    rng = np.random.default_rng(case["seed"] * 7 + m)  # enumeration parameters only; part of the deterministic case
+    rows = np.cumsum(rng.uniform(0.5, 1.5, (n, m)), axis=1)
+    ys = np.cumsum(rng.uniform(0.1, 2.0, m))
+    nodes = [min(m - 2, k) for k in (3, 254, 255, 256, 32766, 32767, 32768, 65534, 65535, 65536, m - 2)]
+    x = np.array([rows[i, nodes[(i * 3 + case["seed"]) % len(nodes)]] + 0.37 * (rows[i, nodes[(i * 3 + case["seed"]) % len(nodes)] + 1] - rows[i, nodes[(i * 3 + case["seed"]) % len(nodes)]]) for i in range(n)])
+    with cut(f"vec_1d_interp(rows of {m} nodes)"):
+        y = np.asarray(vec_1d_interp(rows, ys, x), dtype=np.float64)
+    want = np.array([np.interp(x[i], rows[i], ys) for i in range(n)])
+    bad = np.where(~(np.abs(y - want) <= 1e-12 * np.abs(want)))[0]
+    require(bad.size == 0, f"row-wise interpolation on rows of {m} nodes: row {int(bad[0]) if bad.size else -1} queried between nodes {nodes[(int(bad[0]) * 3 + case['seed']) % len(nodes)] if bad.size else '?'} and the next gives {y[bad[:1]].tolist()}, np.interp {want[bad[:1]].tolist()}")
+    return {f"m={m}"}
 
 
 def body_rows(case):
@@ -428,6 +471,15 @@ SUBCHECKS = [
         lambda labels: bool(labels & {"non_finite", "axis_dtype_differs"}) or ">=2d" in labels,
         {"quick": 300, "thorough": 12000},
         doc="write -> read in HDF5 and FITS: data, axes (own dtypes), names, shape equal at byte level",
+    ),
+    SubCheck(
+        "long_rows",
+        None,
+        body_long_rows,
+        lambda labels: True,
+        {"quick": 1},
+        doc="row-wise interpolation on rows of 255 .. 70001 nodes (140003 / 2^18+1 thorough), queries just beyond nodes 255, 32767, 65535 and at the ends, vs np.interp",
+        exhaustive=_long_row_cases,
     ),
     SubCheck(
         "multi_grid_file",
